@@ -494,4 +494,245 @@ theorem heappop_min {lt : α → α → Bool} (sw : StrictWeak lt) {h : Array α
   simp only [Array.length_toList] at hi
   simpa using hinv.root_min sw i hi
 
+/-! ### fuel of `heappop`: the array size the port passes is enough -/
+
+theorem siftupLoop_bounds (lt : α → α → Bool) :
+    ∀ (fuel : Nat) (g : Array α) (pos : Nat), pos < g.size →
+      (siftupLoop lt g pos fuel).1.size = g.size ∧ (siftupLoop lt g pos fuel).2 < g.size := by
+  intro fuel
+  induction fuel with
+  | zero => intro g pos hp; exact ⟨rfl, hp⟩
+  | succ n ih =>
+    intro g pos hp
+    unfold siftupLoop
+    split
+    · rename_i hc
+      have := ih (g.setIfInBounds pos g[(pickChild lt g (2 * pos + 1) hc).val])
+        (pickChild lt g (2 * pos + 1) hc).val (by simp)
+      simpa using this
+    · exact ⟨rfl, hp⟩
+
+/-- `heappop` with the fuel of its two loops explicit -/
+def heappopFuel (lt : α → α → Bool) (h : Array α) (f1 f2 : Nat) : Option (α × Array α) :=
+  if hs : h.size = 0 then none else
+  let lastelt := h[h.size - 1]
+  let h := h.pop
+  if hs' : h.size = 0 then some (lastelt, h) else
+  let ret := h[0]
+  let newitem := lastelt
+  let r := siftupLoop lt (h.setIfInBounds 0 newitem) 0 f1
+  some (ret, siftdown lt (r.1.setIfInBounds r.2 newitem) 0 r.2 newitem f2)
+
+/-- any fuel `≥ len(heap) - 1` gives the result of `heappop`: both loops stop by themselves -/
+theorem heappop_fuel (lt : α → α → Bool) (h : Array α) (f1 f2 : Nat) (h1 : h.size - 1 ≤ f1)
+    (h2 : h.size - 1 ≤ f2) : heappopFuel lt h f1 f2 = heappop lt h := by
+  unfold heappopFuel heappop
+  split
+  · rfl
+  · simp only []
+    split
+    · rfl
+    · rename_i hs hs'
+      have hsz : h.pop.size = h.size - 1 := by simp
+      have e1 := siftupLoop_fuel_irrelevant lt (h.pop.setIfInBounds 0 h[h.size - 1]) 0 f1 h.pop.size
+        (by simp; omega) (by simp)
+      rw [e1]
+      have hb := siftupLoop_bounds lt h.pop.size (h.pop.setIfInBounds 0 h[h.size - 1]) 0
+        (by simp; omega)
+      simp only [Array.size_setIfInBounds] at hb
+      rw [siftdown_fuel_irrelevant lt _ 0 _ _ f2 h.pop.size (by omega) (by omega)]
+
 end Heap
+
+/-! ## the (ts, seq) order: the heap refines the sorted-list queue -/
+
+namespace Heap
+variable {K : Type}
+
+theorem keyLtb_iff (a b : Ev K) : keyLtb a b = true ↔ keyLt a b := by
+  unfold keyLtb keyLt
+  simp
+
+theorem keyLtb_false_iff (a b : Ev K) : keyLtb a b = false ↔ ¬ keyLt a b := by
+  rw [← keyLtb_iff]
+  simp
+
+/-- (ts, seq) is a strict weak order on events, whatever their payload; it is total on events
+    with distinct sequence numbers (`keyLt_total`) -/
+theorem keyLtb_strictWeak : StrictWeak (keyLtb : Ev K → Ev K → Bool) where
+  irrefl a := by rw [keyLtb_false_iff]; exact keyLt_irrefl a
+  trans a b c h1 h2 := by rw [keyLtb_iff] at *; exact keyLt_trans h1 h2
+  negtrans a b c h1 h2 := by
+    rw [keyLtb_false_iff] at *
+    unfold keyLt at *
+    omega
+
+/-- the refinement relation: `h` is a valid heap whose contents are those of the strictly sorted
+    list `q` -/
+def Rel (h : Array (Ev K)) (q : List (Ev K)) : Prop :=
+  HeapInv keyLtb h ∧ h.toList.Perm q ∧ q.Pairwise keyLt
+
+theorem Rel.empty : Rel (#[] : Array (Ev K)) [] :=
+  ⟨HeapInv_empty _, List.Perm.refl _, List.Pairwise.nil⟩
+
+theorem Rel.size_eq {h : Array (Ev K)} {q : List (Ev K)} (r : Rel h q) : h.size = q.length := by
+  simpa using r.2.1.length_eq
+
+/-- `heappush` refines stable insertion, when the new sequence number is the largest (that is how
+    `EventLoop.schedule_event` assigns them) -/
+theorem Rel.push {h : Array (Ev K)} {q : List (Ev K)} (r : Rel h q) (e : Ev K)
+    (hseq : ∀ x ∈ q, x.seq < e.seq) : Rel (heappush keyLtb h e) (insertEv e q) := by
+  obtain ⟨h1, h2⟩ := heappush_spec keyLtb_strictWeak r.1 e
+  exact ⟨h1, (h2.trans (List.Perm.cons e r.2.1)).trans (insertEv_perm e q).symm,
+    insertEv_sorted e q r.2.2 hseq⟩
+
+/-- the root of the heap is the head of the sorted list (the minimum is unique) -/
+theorem Rel.root {h : Array (Ev K)} {e : Ev K} {rest : List (Ev K)} (r : Rel h (e :: rest)) :
+    ∃ hne : 0 < h.size, h[0] = e := by
+  have hne : 0 < h.size := by have := r.size_eq; simp at this; omega
+  refine ⟨hne, ?_⟩
+  have hmem : h[0] ∈ e :: rest := r.2.1.mem_iff.mp (by simp)
+  rcases List.mem_cons.mp hmem with h0 | h0
+  · exact h0
+  · exfalso
+    have hlt : keyLt e h[0] := sorted_head_least r.2.2 _ h0
+    have he : e ∈ h.toList := r.2.1.mem_iff.mpr List.mem_cons_self
+    obtain ⟨i, hi, hie⟩ := List.mem_iff_getElem.mp he
+    simp only [Array.length_toList] at hi
+    have := r.1.root_min keyLtb_strictWeak i hi
+    rw [keyLtb_false_iff] at this
+    simp only [Array.getElem_toList] at hie
+    rw [hie] at this
+    exact this hlt
+
+/-- `heappop` pops exactly the head of the sorted list -/
+theorem Rel.pop {h : Array (Ev K)} {e : Ev K} {rest : List (Ev K)} (r : Rel h (e :: rest)) :
+    ∃ h', heappop keyLtb h = some (e, h') ∧ Rel h' rest := by
+  obtain ⟨hne, h0⟩ := r.root
+  obtain ⟨h', hp, hinv, hperm⟩ := heappop_spec keyLtb_strictWeak r.1 hne
+  rw [h0] at hp hperm
+  refine ⟨h', hp, hinv, ?_, (List.pairwise_cons.mp r.2.2).2⟩
+  exact (hperm.symm.trans r.2.1).cons_inv
+
+theorem Rel.pop_nil {h : Array (Ev K)} (r : Rel h []) : heappop keyLtb h = none :=
+  heappop_empty _ _ (by simpa using r.size_eq)
+
+/-- `heap[0]` is the head of the sorted list -/
+theorem Rel.peek {h : Array (Ev K)} {q : List (Ev K)} (r : Rel h q) : h[0]? = q.head? := by
+  cases q with
+  | nil =>
+    have := r.size_eq
+    simp at this
+    simp [this]
+  | cons e rest =>
+    obtain ⟨hne, h0⟩ := r.root
+    simp [hne, h0]
+
+end Heap
+
+/-! ## the event loop on the heap and the event loop on the sorted list -/
+
+/-- same clock, same counter, heap `Rel` queue; the counter exceeds every queued sequence number -/
+structure HRel {K : Type} (hl : HEL K) (l : EL K) : Prop where
+  now : hl.now = l.now
+  nextSeq : hl.nextSeq = l.nextSeq
+  rel : Heap.Rel hl.heap l.queue
+  seq_lt : ∀ x ∈ l.queue, x.seq < l.nextSeq
+
+namespace HRel
+variable {K : Type}
+
+theorem empty : HRel (HEL.empty : HEL K) EL.empty :=
+  ⟨rfl, rfl, Heap.Rel.empty, by intro x hx; cases hx⟩
+
+/-- one API call: same output, related successors -/
+theorem apply {hl : HEL K} {l : EL K} (r : HRel hl l) (op : ELOp K) :
+    (hl.apply op).2 = (l.apply op).2 ∧ HRel (hl.apply op).1 (l.apply op).1 := by
+  obtain ⟨hnow, hseq, hrel, hlt⟩ := r
+  cases op with
+  | schedule ts k =>
+    by_cases hts : ts < l.now
+    · have e1 : hl.apply (.schedule ts k) = (hl, .err .past) := by
+        simp [HEL.apply, HEL.schedule, hnow, hts]
+      have e2 : l.apply (.schedule ts k) = (l, .err .past) := by
+        simp [EL.apply, EL.schedule, hts]
+      rw [e1, e2]
+      exact ⟨rfl, hnow, hseq, hrel, hlt⟩
+    · have e1 : hl.apply (.schedule ts k) =
+          ({ hl with heap := Heap.heappush Heap.keyLtb hl.heap ⟨ts, hl.nextSeq, k⟩,
+                     nextSeq := hl.nextSeq + 1 }, .ok) := by
+        simp [HEL.apply, HEL.schedule, hnow, hts]
+      have e2 : l.apply (.schedule ts k) =
+          ({ l with queue := insertEv ⟨ts, l.nextSeq, k⟩ l.queue, nextSeq := l.nextSeq + 1 }, .ok) := by
+        simp [EL.apply, EL.schedule, hts]
+      rw [e1, e2]
+      refine ⟨rfl, hnow, ?_, ?_, ?_⟩
+      · show hl.nextSeq + 1 = l.nextSeq + 1
+        rw [hseq]
+      · show Heap.Rel (Heap.heappush Heap.keyLtb hl.heap ⟨ts, hl.nextSeq, k⟩)
+          (insertEv ⟨ts, l.nextSeq, k⟩ l.queue)
+        rw [hseq]
+        exact hrel.push _ hlt
+      · intro x hx
+        rcases mem_insertEv.mp hx with rfl | hx
+        · exact Nat.lt_succ_self _
+        · exact Nat.lt_succ_of_lt (hlt x hx)
+  | pop =>
+    cases hq : l.queue with
+    | nil =>
+      have hrel' := hrel
+      rw [hq] at hrel'
+      have e1 : hl.apply .pop = (hl, .err .empty) := by
+        simp [HEL.apply, HEL.pop, hrel'.pop_nil]
+      have e2 : l.apply .pop = (l, .err .empty) := by
+        simp [EL.apply, EL.pop, hq]
+      rw [e1, e2]
+      exact ⟨rfl, hnow, hseq, hrel, hlt⟩
+    | cons e rest =>
+      have hrel' := hrel
+      rw [hq] at hrel'
+      obtain ⟨h', hp, hrel''⟩ := hrel'.pop
+      have e1 : hl.apply .pop = ({ hl with heap := h', now := e.ts }, .ev (some e)) := by
+        simp [HEL.apply, HEL.pop, hp]
+      have e2 : l.apply .pop = ({ l with queue := rest, now := e.ts }, .ev (some e)) := by
+        simp [EL.apply, EL.pop, hq]
+      rw [e1, e2]
+      refine ⟨rfl, rfl, hseq, hrel'', ?_⟩
+      intro x hx
+      exact hlt x (hq ▸ List.mem_cons_of_mem _ hx)
+  | peek =>
+    have e1 : hl.apply .peek = (hl, .ev l.queue.head?) := by
+      simp [HEL.apply, HEL.peek, hrel.peek]
+    have e2 : l.apply .peek = (l, .ev l.queue.head?) := rfl
+    rw [e1, e2]
+    exact ⟨rfl, hnow, hseq, hrel, hlt⟩
+  | clear =>
+    have e1 : hl.apply .clear = ({ hl with heap := #[] }, .ok) := rfl
+    have e2 : l.apply .clear = ({ l with queue := [] }, .ok) := rfl
+    rw [e1, e2]
+    exact ⟨rfl, hnow, hseq, Heap.Rel.empty, by intro x hx; cases hx⟩
+  | len =>
+    have e1 : hl.apply .len = (hl, .num l.queue.length) := by
+      simp [HEL.apply, HEL.len, hrel.size_eq]
+    have e2 : l.apply .len = (l, .num l.queue.length) := rfl
+    rw [e1, e2]
+    exact ⟨rfl, hnow, hseq, hrel, hlt⟩
+  | now =>
+    have e1 : hl.apply .now = (hl, .num l.now) := by
+      simp [HEL.apply, hnow]
+    have e2 : l.apply .now = (l, .num l.now) := rfl
+    rw [e1, e2]
+    exact ⟨rfl, hnow, hseq, hrel, hlt⟩
+
+/-- every history: same outputs in the same order, related final states -/
+theorem run {hl : HEL K} {l : EL K} (r : HRel hl l) (ops : List (ELOp K)) :
+    (hl.run ops).2 = (l.run ops).2 ∧ HRel (hl.run ops).1 (l.run ops).1 := by
+  induction ops generalizing hl l with
+  | nil => exact ⟨rfl, r⟩
+  | cons op ops ih =>
+    obtain ⟨h1, h2⟩ := r.apply op
+    obtain ⟨h3, h4⟩ := ih h2
+    simp only [HEL.run, EL.run]
+    exact ⟨by rw [h1, h3], h4⟩
+
+end HRel
